@@ -315,3 +315,25 @@ S("C09", "list version stored under meter_id", "R5", (KM, "            element_n
 S("C09", "pinned defect: unknown OBIS raises KeyError", "R5", (KM, "            if obis_group_cdr in obis_map.obis_name_map:\n                element_name = obis_map.obis_name_map[obis_group_cdr]\n            else:\n                element_name = obis_group_cdr\n", "            element_name = obis_map.obis_name_map[obis_group_cdr]\n"))
 N("C09", "scaling by rounding idiom for negatives", (KM, "                        else measure.value / (10**-scale)\n", "                        else round(measure.value * (10**scale), -scale)\n"))
 N("C09", "CT test with explicit parentheses order", (KM, "    field_scaling = _field_scaling_ct_meter if is_ct_meter else _field_scaling_standard", "    field_scaling = _field_scaling_standard if not is_ct_meter else _field_scaling_ct_meter"))
+
+# ------------------------------------------------------------------------------------------------ C15 (the repaired defects re-seeded, plus others)
+S("C15", "pinned defect: unchecked find(')')", "R2", (D, "                if value_end_pos == -1:\n                    raise ValueError(\"Data set value is missing end parenthesis.\")\n", ""))
+S("C15", "pinned defect: Aidon value switch without default", "R1", (AI, "                default=construct.Error,\n            ),\n            \"scaler_unit\"", "            ),\n            \"scaler_unit\""))
+S("C15", "pinned defect: DateTime computed with unspecified time", "R1", (CO, "    construct.Check(\n        lambda ctx: ctx.hour is not None\n        and ctx.minute is not None\n        and ctx.second is not None\n    ),  # time of day must be specified to compute datetime\n", ""))
+S("C15", "pinned defect: Kaifa layout default []", "R1", (KA, "(x for x in _field_order_lists if len(x) == len(list_items)), None\n    )\n    if current_list_names is None:\n        raise ValueError(f\"Unexpected number of list items: {len(list_items)}\")\n", "(x for x in _field_order_lists if len(x) == len(list_items)), []\n    )\n"))
+S("C15", "pinned defect: Kaifa clock position without hasattr", "R1", (KA, "            if not hasattr(measure.value, \"datetime\"):\n                raise ValueError(\"Expected date-time list item.\")\n            dictionary[element_name] = measure.value.datetime\n        else:\n            scale = _FIELD_SCALING.get(element_name, None)\n            if scale and isinstance(measure.value, int):\n                scaled_value = round(measure.value * (10**scale), abs(scale))\n                dictionary[element_name] = scaled_value\n            else:\n                dictionary[element_name] = measure.value\n\n    return dictionary\n\n\ndef _normalize_parsed_obis",
+    "            dictionary[element_name] = measure.value.datetime\n        else:\n            scale = _FIELD_SCALING.get(element_name, None)\n            if scale and isinstance(measure.value, int):\n                scaled_value = round(measure.value * (10**scale), abs(scale))\n                dictionary[element_name] = scaled_value\n            else:\n                dictionary[element_name] = measure.value\n\n    return dictionary\n\n\ndef _normalize_parsed_obis"))
+S("C15", "pinned defect: Kaifa scales non-integers", "R1", (KA, "            if scale and isinstance(measure.value, int):\n                scaled_value = round(measure.value * (10**scale), abs(scale))\n                dictionary[element_name] = scaled_value\n            else:\n                dictionary[element_name] = measure.value\n\n    return dictionary\n\n\ndef _normalize_parsed_obis",
+    "            if scale:\n                scaled_value = round(measure.value * (10**scale), abs(scale))\n                dictionary[element_name] = scaled_value\n            else:\n                dictionary[element_name] = measure.value\n\n    return dictionary\n\n\ndef _normalize_parsed_obis"))
+S("C15", "pinned defect: Kaifa null APDU date dereferenced", "R1", (KA, "        if hasattr(parsed.information.DateTime, \"datetime\"):\n            dictionary[\n                obis_map.FIELD_METER_DATETIME\n            ] = parsed.information.DateTime.datetime\n", "        dictionary[obis_map.FIELD_METER_DATETIME] = parsed.information.DateTime.datetime\n"))
+S("C15", "pinned defect: Kamstrup unknown OBIS KeyError", "R1", (KM, "            if obis_group_cdr in obis_map.obis_name_map:\n                element_name = obis_map.obis_name_map[obis_group_cdr]\n            else:\n                element_name = obis_group_cdr\n", "            element_name = obis_map.obis_name_map[obis_group_cdr]\n"))
+S("C15", "pinned defect: Kamstrup null APDU date dereferenced", "R1", (KM, "    if hasattr(frame.information.DateTime, \"datetime\"):\n        dictionary[obis_map.FIELD_METER_DATETIME] = frame.information.DateTime.datetime\n", "    dictionary[obis_map.FIELD_METER_DATETIME] = frame.information.DateTime.datetime\n"))
+S("C15", "pinned defect: Kamstrup clock element without hasattr", "R1", (KM, "            if not hasattr(measure.value, \"datetime\"):\n                raise ValueError(\"Expected date-time list item.\")\n            dictionary[element_name] = measure.value.datetime\n        else:\n            if isinstance", "            dictionary[element_name] = measure.value.datetime\n        else:\n            if isinstance"))
+S("C15", "pinned defect: OverflowError from int(float())", "R1", (D, "                try:\n                    value = int(float(item.values[0].value) * 1000)\n                except OverflowError as ex:\n                    raise ValueError(\"Value is out of range.\") from ex\n", "                value = int(float(item.values[0].value) * 1000)\n"))
+S("C15", "handler tuple loses ValueError", "R1", (AD, "                decoded = decoder(payload)\n                self.__previous_success = index\n                return decoded\n            except (construct.ConstructError, ValueError):", "                decoded = decoder(payload)\n                self.__previous_success = index\n                return decoded\n            except construct.ConstructError:"))
+S("C15", "Aidon name lookup without membership test", "R1", (AI, "        if obis_group_cdr in obis_map.obis_name_map:\n            element_name = obis_map.obis_name_map[obis_group_cdr]\n        else:\n            element_name = obis_group_cdr\n\n        if isinstance(measure.content, str):", "        element_name = obis_map.obis_name_map[obis_group_cdr]\n\n        if isinstance(measure.content, str):"))
+S("C15", "GreedyRange(Pass)", "R3", (CO, "        construct.GreedyRange(\n            construct.Const(CommonDataTypes.null_data, CommonDataTypes)\n        ),", "        construct.GreedyRange(construct.Pass),"))
+S("C15", "explicit raise of a foreign class", "R1", (KA, '    raise ValueError(f"Unexpected list type {list_type}")\n\n\ndef normalize_parsed_notification', '    raise KeyError(f"Unexpected list type {list_type}")\n\n\ndef normalize_parsed_notification'))
+S("C15", "value with several separators skipped without advancing", "R2", (D, "                values.append(DataSetValue.parse(line[from_pos + 1 : value_end_pos]))\n", "                try:\n                    values.append(DataSetValue.parse(line[from_pos + 1 : value_end_pos]))\n                except ValueError:\n                    continue\n"))
+N("C15", "handler written as two except clauses", (AD, "                decoded = decoder(payload)\n                self.__previous_success = index\n                return decoded\n            except (construct.ConstructError, ValueError):\n                pass\n\n        return None\n\n    def decode_message(", "                decoded = decoder(payload)\n                self.__previous_success = index\n                return decoded\n            except construct.ConstructError:\n                pass\n            except ValueError:\n                pass\n\n        return None\n\n    def decode_message("))
+N("C15", "handler broadened to Exception", (AD, "                return decoded\n            except (construct.ConstructError, ValueError):\n                pass\n\n        return None\n\n    def decode_message(", "                return decoded\n            except Exception:\n                pass\n\n        return None\n\n    def decode_message("))
